@@ -62,8 +62,15 @@ func TestC17Batches(t *testing.T) {
 		if kind == "reconcile-mixed" {
 			word = "AB" // an old template to delete pods of
 		}
+		// template tolerations: for some lengths the slice decoded from the API has spare capacity
+		prepTolerations = rapid.SampledFrom([]int{0, 0, 1, 9, 10, 11, 20, 21, 30}).Draw(rt, "templateTolerations")
 		p := prepare(c, "ns1", "foo", st, nil, word)
-		rs := c.ERS("ns1", p.RS[word[len(word)-1]])
+		prepTolerations = 0
+		// read the replica set the way the controller does (through the client: decoded from JSON), not as a deep copy
+		rs := &edsv1.ExtendedDaemonSetReplicaSet{}
+		if err := c.Env().Get(context.Background(), sim.KeyOf("ns1", p.RS[word[len(word)-1]]), rs); err != nil {
+			rt.Fatalf("harness: %v", err)
+		}
 		// failing set by node name (pod creations) / pod name (deletions)
 		failNode := map[string]bool{}
 		for i := range failing {
